@@ -229,6 +229,18 @@ theorem inv_stmtexpr {env : CEnv} {st st' : HSt} {ce : CE} {t v e}
   obtain ⟨rfl, rfl⟩ := h
   exact ⟨c1, s1, h1, rfl, rfl⟩
 
+theorem inv_seqexpr {env : CEnv} {st st' : HSt} {ce : CE} {name exts args params val}
+    (h : compileExprH env st (.seqexpr name exts args params val) = .ok (ce, st')) :
+    ∃ cargs s1 cv s2, compileArgsH env st args params = .ok (cargs, s1) ∧ compileExprH env s1 val = .ok (cv, s2) ∧
+      ce = { il := .varl (tmpName s2.hyb), ty := cv.ty, kind := .plain } ∧
+      st' = seqState s2 name exts cargs cv.il := by
+  simp only [compileExprH] at h
+  obtain ⟨⟨cargs, s1⟩, h1, h⟩ := bind_ok h
+  obtain ⟨⟨cv, s2⟩, h2, h⟩ := bind_ok h
+  simp only [Except.ok.injEq, Prod.mk.injEq] at h
+  obtain ⟨rfl, rfl⟩ := h
+  exact ⟨cargs, s1, cv, s2, h1, h2, rfl, rfl⟩
+
 theorem inv_leaf {env : CEnv} {st st' : HSt} {ce : CE} {e : CExpr}
     (hl : (∃ n k t, e = .reg n k t) ∨ (∃ v h s, e = .lit v h s) ∨ (∃ n t, e = .var n t) ∨ (∃ s w t, e = .load s w t))
     (h : compileExprH env st e = .ok (ce, st')) :
